@@ -25,8 +25,9 @@ from hirlib import AnchorMissing, Crate  # noqa: E402
 class Ctx:
     """Lazy access to the facts of the current tree."""
 
-    def __init__(self, tier):
+    def __init__(self, tier, repo=None):
         self.tier = tier
+        self.repo = repo
         self._crates = {}
         self._nbt = None
         self.configs_used = set()
@@ -35,7 +36,7 @@ class Ctx:
     def crate(self, name="numbat-lib", config="default"):
         key = (name, config)
         if key not in self._crates:
-            doc = facts.load(name, config)
+            doc = facts.load(name, config, self.repo)
             self.configs_used.add(config)
             self.cache_hits["%s/%s" % (name, config)] = bool(doc.get("_cache_hit"))
             self._crates[key] = Crate(doc)
@@ -54,7 +55,7 @@ class Ctx:
         if self._nbt is None:
             import nbtlint
 
-            self._nbt = nbtlint.Library(os.path.join(facts.REPO, "numbat", "modules"))
+            self._nbt = nbtlint.Library(os.path.join(self.repo or facts.REPO, "numbat", "modules"))
         return self._nbt
 
 
@@ -94,6 +95,16 @@ def run_property(pid, tier, seed):
         except Exception as e:  # a crashing rule must not pass
             o = RuleOut(rule_name)
             o.error("rule crashed: %s\n%s" % (e, traceback.format_exc()[-1500:]))
+            outs.append(o)
+
+    selftest = None
+    if tier == "thorough":
+        import selftest as _st
+
+        selftest = _st.run(pid, spec)
+        for msg in selftest.get("errors", []):
+            o = RuleOut("SELFTEST")
+            o.error(msg)
             outs.append(o)
 
     known = [k for k in load_known() if k["property"] == pid]
@@ -193,6 +204,12 @@ def run_property(pid, tier, seed):
         "tree_hash": facts.tree_hash(),
         "exhaustive": True,
     }
+    if selftest is not None:
+        coverage["seeded_variants"] = selftest["variants"]
+        coverage["seeded_fired"] = selftest["fired"]
+        coverage["seeded_skipped"] = selftest["skipped"]
+        coverage["seeded_detail"] = selftest["detail"]
+        coverage["extra_configs"] = selftest.get("extra_configs", [])
     if lib is not None:
         coverage["functions_analysed"] = len(lib.doc["hir"])
         coverage["mir_bodies"] = len(lib.doc["mir"])
